@@ -164,6 +164,17 @@ def r6_images(ctx, res):
            f'disagrees with the inverse navigation when one word has two senses in a synset)')
 
 
+def r7_rows_describe_their_entity(ctx, res):
+    """an entity reached by navigation carries its own lexicon and rowid: the select lists of the navigation queries are the
+    prescribed ones (C01-R7: a sense row holds the SENSE's lexicon_rowid, not its synset's) and field-wise constructions take
+    each identifying field from the matching column (C11-R7).  With the wrong owner the default-mode scope of the object -
+    and every further navigation step from it - is that of another lexicon."""
+    from .c01 import r7_readers
+    from .c11 import entity_fields_from_row
+    r7_readers(ctx, res)
+    entity_fields_from_row(ctx, res, prefix='navigation-entity-fields')
+
+
 RULES = [
     ('C10-R1', r1_navigation, 30),
     ('C10-R2', r2_eq_hash, 12),
@@ -171,4 +182,5 @@ RULES = [
     ('C10-R4', r4_inverse_navigation, 5),
     ('C10-R5', r5_scope_family, 3),
     ('C10-R6', r6_images, 3),
+    ('C10-R7', r7_rows_describe_their_entity, 40),
 ]
